@@ -189,6 +189,10 @@ func (e *Engine) healthyOp(s *actorState) (Op, bool) {
 		if a.st == "initerror" {
 			return Op{}, false
 		}
+		if a.st == "refused" {
+			// a real runtime treats a refused submission as fatal (aws-lambda-go, the Python RIC: log and exit non-zero)
+			return Op{Kind: "exit", N: 1}, true
+		}
 		if a.CurReqID != "" {
 			if s.b.RespErr {
 				return Op{Kind: "error"}, true
@@ -399,6 +403,10 @@ func (e *Engine) doOp(s *actorState, op Op, scripted bool) {
 	case "until": // stall until CurInv.ArrivalAt + D (absolute offset from the arrival of the current invocation)
 		if a.CurInv != nil {
 			s.readyAt = a.CurInv.ArrivalAt + op.D
+		}
+	case "untilinv": // stall until (arrival of the latest invocation) + D
+		if n := len(e.w.Invokes); n > 0 {
+			s.readyAt = e.w.Invokes[n-1].ArrivalAt + op.D
 		}
 	case "exit":
 		e.r.Fault("process-exit")
@@ -611,6 +619,12 @@ func (e *Engine) Run() {
 		e.spawn()
 		e.noteOutcomes()
 		acts, due, hasDue := e.enabled()
+		if len(acts) == 0 && r.HeldNow() && !hasDue {
+			// nothing else can happen: the descheduled goroutine gets to run
+			r.ReleaseHolds()
+			r.Settle()
+			continue
+		}
 		if len(acts) == 0 {
 			if e.finished() {
 				return
